@@ -502,7 +502,7 @@ pub fn check(case: &Case, w: usize) -> CheckResult {
         return inconclusive("run timed out".into());
     }
     let Some(doc) = out.json() else {
-        if out.stderr_str().contains("Lock acquisition failed") {
+        if (out.stderr_str().contains("Lock acquisition failed") || out.stderr_str().contains("Text file busy")) {
             return inconclusive(format!("run produced no JSON: {}", out.brief()));
         }
         // configuration, command files, argmap files and arguments are all valid: a run that ends
